@@ -24,6 +24,13 @@ func runC03(c *Ctx) {
 	cs := loadContracts(c)
 	c.Replayer = replayPrintRead
 	opt := vc.Options{Safety: true, InlineDepth: 2, InlineSize: 100}
+	if c.Tier != "thorough" && !c.WriteBase {
+		// the quick tier sweeps the root package only: append-only obligations of the other packages are
+		// outside its scope (they are not "no longer generated")
+		c.Covers = func(name string) bool {
+			return !strings.Contains(name, "/post@appends-only") || strings.HasPrefix(name, "slip.")
+		}
+	}
 	markAppendOnly(c, cs)
 	runContracts(c, cs, opt, defaultSolve())
 	sweepAppendOnly(c, cs)
